@@ -80,20 +80,26 @@ def _check_scripts(res):
 
 def main(tier, args):
     t0 = time.time()
-    # the repo sources under test are built with ASan+UBSan; the harness TU itself (model, oracle, enumeration) is not
-    # instrumented (half the run time) - malloc/free are intercepted process-wide, so a double delete or a use-after-free
-    # inside Module code is still reported
-    exe = vf.build("C11/module", [vf.VERIF + "/checks/C11/harness.cpp"],
-                   vf.module_sources("main/module.cpp", "util/variables.cpp"), mode="asan",
-                   harness_flags=["-fno-sanitize=all", "-O2", "-faccess-control"],   # public API + Probe's own fields only
+    # Two builds of the same sources. (1) module.cpp/variables.cpp with ASan+UBSan: runs every tree with < nmax nodes (all attach
+    # variants) - a double delete / use-after-free / overflow in Module code needs no more nodes than that. (2) plain -O1: runs the
+    # trees with exactly nmax nodes (95% of the work, 3x faster; a crash is still a violation). The harness TU itself (model, oracle,
+    # enumeration) is never instrumented: malloc/free are intercepted process-wide in build (1).
+    hf = ["-fno-sanitize=all", "-O2", "-faccess-control"]   # public API + Probe's own fields only
+    srcs = vf.module_sources("main/module.cpp", "util/variables.cpp")
+    exe = vf.build("C11/module", [vf.VERIF + "/checks/C11/harness.cpp"], srcs, mode="asan", harness_flags=hf,
                    plain_srcs=[vf.VERIF + "/engine/sched/log_stub.cpp"])
+    exe_plain = vf.build("C11/module_plain", [vf.VERIF + "/checks/C11/harness.cpp"], srcs, mode="plain", harness_flags=hf,
+                         plain_srcs=[vf.VERIF + "/engine/sched/log_stub.cpp"])
     # nmax nodes, depth of root-call sequences, cross-check (plain enumeration of all sequences) up to xn nodes / xd calls,
     # caps of the history counters in the state key, max number of non-ok modules in trees with exactly nmax nodes (0 = no limit)
     # caps of the history counters in the state key (failed passes, cleanup passes, stop passes)
     nmax, depth, xn, xd, capf, capc, caps, maxdev, dl, parts = (4, 14, 3, 3, 2, 1, 1, 0, 300, 16) if tier == "quick" else (5, 14, 3, 5, 3, 2, 2, 3, 900, 64)
     res = vf.Result()
     log = open(vf.BUILD + "/C11/log.txt", "w")
-    cmds = [("part%02d" % k, [exe, "bfs", str(nmax), str(depth), str(k), str(parts), str(xn), str(xd), str(capf), str(capc), str(maxdev), str(caps)]) for k in range(parts)]
+    common = [str(xn), str(xd), str(capf), str(capc), str(maxdev), str(caps)]
+    small = 2 if tier == "quick" else 16
+    cmds = [("part%02d" % k, [exe_plain, "bfs", str(nmax), str(depth), str(k), str(parts)] + common + [str(nmax), str(nmax)]) for k in range(parts)]
+    cmds += [("asan%02d" % k, [exe, "bfs", str(nmax), str(depth), str(k), str(small)] + common + ["1", str(nmax - 1)]) for k in range(small)]
     if args.only:
         cmds = [c for c in cmds if c[0] == args.only]
     vf.run_procs(res, cmds, env={"VERIF_DEADLINE_S": str(dl)}, log=log)
@@ -126,8 +132,9 @@ def main(tier, args):
                    "(per-module state, required/optional, reverse-order roll-back inside the failing call), pre-order init/start per root call, stop/cleanup LIFO w.r.t. "
                    "the start/init hooks they undo (exact reverse), per-module hook automaton, no cleanup hook under a started ancestor, balance after cleanup+destroy "
                    "and after the frontend script (also on its initialize-failed path without cleanup()), balance of all non-root modules after destroy without cleanup, "
-                   "optional failing subtree leaves outside hooks identical to the reference of the program without it; ASan/UBSan on the Module code"
-                   % (nmax, (" (at most %d non-ok modules in trees with exactly %d nodes)" % (maxdev, nmax)) if maxdev else "", nmax, depth, capf, capf, capc, caps, xd, xn),
+                   "optional failing subtree leaves outside hooks identical to the reference of the program without it; trees with fewer than %d nodes run on an ASan/UBSan build "
+                   "of the Module code, trees with exactly %d nodes on a plain -O1 build (crash = violation)"
+                   % (nmax, (" (at most %d non-ok modules in trees with exactly %d nodes)" % (maxdev, nmax)) if maxdev else "", nmax, depth, capf, capf, capc, caps, xd, xn, nmax, nmax),
               assumptions=["a hook's result depends only on the module's mode and on whether it is that hook's first call on the module "
                            "(fails always / on the first call only / on the second call only); second-call-only modes are not combined with first-call-only modes or with each other",
                            "BFS histories use a config written by the harness from the tree (one nested section per named module); the frontend script uses the one "
@@ -139,5 +146,5 @@ def main(tier, args):
                            "the reference model performs the roll-back of a failed required child inside the failing initialize()/start() call, "
                            "which is what the frontend flow (no cleanup() after a failed initialize()) needs for balance",
                            "Context is a fake whose accessors return nullptr: Module never dereferences it (module.cpp:30-32)",
-                           "the harness translation unit is compiled without sanitizer instrumentation (module.cpp and variables.cpp are instrumented)",
+                           "sanitizers (module.cpp, variables.cpp instrumented; harness TU not) only for trees smaller than the largest size; the largest trees run uninstrumented",
                            "hooks_distinct counter is summed over process partitions (upper bound of globally distinct hook logs)"])
